@@ -403,6 +403,36 @@ func same(a, b hx.Result) bool {
 	return hx.Canon(a.Data) == hx.Canon(b.Data) && a.Err() == b.Err() && firstLine(a.Panic) == firstLine(b.Panic)
 }
 
+// sameUnordered compares the results of a request that asks for no order: the sequence of the
+// top-level rows is then not specified (seen: a showDeleted listing merges the live and the deleted
+// documents in an order that depends on the scan), so each top-level list is compared as a multiset.
+func sameUnordered(a, b hx.Result) bool {
+	if a.Err() != b.Err() || firstLine(a.Panic) != firstLine(b.Panic) {
+		return false
+	}
+	norm := func(r hx.Result) string {
+		m, ok := hx.Normalize(r.Data).(map[string]any)
+		if !ok {
+			return hx.Canon(r.Data)
+		}
+		out := map[string]any{}
+		for k, v := range m {
+			if rows, ok := v.([]any); ok {
+				ss := make([]string, len(rows))
+				for i, row := range rows {
+					ss[i] = hx.Canon(row)
+				}
+				sort.Strings(ss)
+				out[k] = ss
+			} else {
+				out[k] = v
+			}
+		}
+		return hx.Canon(out)
+	}
+	return norm(a) == norm(b)
+}
+
 func (e *env) collection(n *hx.Node, col int) client.Collection {
 	c, err := n.DB.GetCollectionByName(n.Ctx, colName(col))
 	if err != nil {
@@ -1214,6 +1244,10 @@ func (e *env) request(r int, rq Req, twp **twin) *hx.Failure {
 			// the engine answers this query differently from one execution to the next on the SAME database (seen: _avg
 			// over an _or of conditions on an indexed field): a difference between two databases proves nothing
 			e.st.add("req:query-skipped-engine-nondeterministic")
+			return nil
+		}
+		if !same(a, b) && !strings.Contains(q, "order:") && sameUnordered(a, b) {
+			e.st.add("req:query-rows-equal-as-multiset(no-order-requested)")
 			return nil
 		}
 		if !same(a, b) {
